@@ -95,7 +95,7 @@ class VThread:
         if self.sched.killed:
             self.done = True
             return
-        if self.sched.opcode_funcs or self.sched.line_funcs:
+        if self.sched.opcode_funcs or self.sched.line_funcs or self.sched.line_files or self.sched.opcode_files:
             sys.settrace(self.sched._tracer)
         try:
             self.result = self.run()
@@ -140,6 +140,8 @@ class Sched:
         self.opcode_budget = 0
         self.line_funcs = set()          # (function name) -> every source line is a yield point
         self.line_budget = 0
+        self.line_files = ()             # tuple of file name suffixes: every function of these bromelia files is traced by line
+        self.opcode_files = ()           # ... by bytecode
         self.log_ops = False
         self.on_step = None
         self.idle_bias = 0.03
@@ -344,6 +346,12 @@ class Sched:
     # ---- opcode-level preemption inside named functions
     def _tracer(self, frame, event, arg):
         if event == "call" and "/bromelia/" in frame.f_code.co_filename:
+            fn = frame.f_code.co_filename
+            if self.opcode_files and fn.endswith(self.opcode_files):
+                frame.f_trace_opcodes = True
+                return self._optrace
+            if self.line_files and fn.endswith(self.line_files):
+                return self._linetrace
             if frame.f_code.co_name in self.opcode_funcs:
                 frame.f_trace_opcodes = True
                 return self._optrace
